@@ -33,7 +33,11 @@ Proof.
 Qed.
 Print Assumptions c14_prompt_refuted.
 
-(* the complement: a waiter whose reply has been processed and that cannot move is in exactly that window *)
+(* the complement, as far as a model without a clock can say it: a waiter whose reply has been processed and that cannot take a program
+   step NOW (it has neither returned nor given up) is polling an empty stream itself, or asleep on the condition with some thread still
+   due to notify. This classifies the blocked states; that such a waiter then stays blocked until a timeout or new traffic is the
+   refutation above (and c13_completion_refuted_without_deadline for waits without a deadline); "how late" is measured by the harness
+   in virtual time, which also checks from the event trace that every late waiter entered through this window *)
 Theorem c14_only_this_window : forall servers s w q, reach (init servers) s ->
   myseq (thrs s w) = Some q -> ready s q = true -> tpc (thrs s w) <> Returned -> tpc (thrs s w) <> TimedOut -> step LStep w s = None ->
   (tpc (thrs s w) = S2 /\ inbox s = []) \/ (tpc (thrs s w) = Asleep /\ exists h, will_notify (tpc (thrs s h)) = true).
